@@ -36,6 +36,10 @@ def finish(ctx, hists):
     nskip = sum(1 for e in events if 'skipped' in e.get('out', {}))
     if nskip:
         ctx.count('skipped_timeouts', nskip)
+    nd = sum(e.get('attr_drift', 0) for e in events)
+    if nd:
+        ctx.extra['attribute_drift_on_callers_objects'] = ctx.extra.get('attribute_drift_on_callers_objects', 0) + nd
+        ctx.log('diagnostic: %d projections show a new attribute name on a caller-owned Kripke/formula object (not a verdict)' % nd)
     verdicts = ctx.validate('TraceLib.tla', 'TraceLib.cfg', events)
     for tid, v in sorted(verdicts.items()):
         ev = events[tid]
@@ -58,6 +62,13 @@ def random_history(rnd, nk, nf, steps, families, fairs=('none', 'none', 'all', '
         f = gen.rand_ctl(rnd, 2) if lg == 'CTL' else ('A', gen.rand_path(rnd, 2, leaves=M0)) if lg == 'LTL' else gen.rand_ctls_state(rnd, 2, leaves=M0)
         if gen.temporal_count(f) <= 3 and gen.size(f) <= 10:
             fs.append({'logic': lg, 'f': f})
+    # one structure of the pool already uses the names the fair checkers generate ('fair', 'fair0') as ordinary labels:
+    # the auxiliary label then differs from structure to structure, while the formula objects are shared by all of them
+    if rnd.random() < 0.45:
+        K = rnd.choice(ks)
+        for i in range(K['n']):
+            if rnd.random() < 0.6:
+                K['L'][i] = sorted(set(K['L'][i]) | {rnd.choice(['fair', 'fair', 'fair0'])})
     # restricted-alphabet formulas with recurring subformulas (the algorithms then work on the caller's own objects)
     for pos in range(nf):
         if rnd.random() < 0.3:
